@@ -229,6 +229,8 @@ SplitRefinesUnsplit ==
 (***************************************************************************)
 BehRec == [cid |-> cfg.id, fault |-> fault, at |-> Len(hist), val |-> val, aval |-> aval,
            frac |-> frac, steps |-> hist]
+\* values only (for value functions: the harness takes the maximum per configuration)
+EmitVal == Complete => PrintT(<<"VAL", cfg.id, val>>)
 Emit ==
   /\ (Complete \/ Faulted) => PrintT(<<"BEH", ToJson(BehRec)>>)
   /\ fault = ""                  \* a faulted state is emitted, then dropped (never expanded)
